@@ -1,7 +1,30 @@
-(* C13 — every snapshot satisfies the documented ISD shape.  M = Model/Isd.v, S = Spec/IsdShape.v. *)
-From TT Require Import Model.Doc Gen.StyleTables Model.Isd Spec.IsdShape Proofs.C13.Shape.
+(* C13 — every snapshot satisfies the documented ISD shape.  M = Model/Isd.v (isd), S = Spec/IsdShape.v: the
+   checker `shape_clauses` lists the clauses of doc/isd.md and of the property text, one boolean per clause.
+   Proved here, for EVERY document and rational time: clauses 0, 1, 2, 4, 7 and 10.  The remaining clauses
+   (3 content model, 5 rh/rw lengths — false of the faithful model for tts:disparity, see KNOWN_FINDINGS —,
+   6 origin = position, 8 no empty text / childless span, 9 collapsed white space) are not proved; they are
+   evaluated by the same checker on every snapshot the implementation and the model produce (harness/c13.py). *)
+From TT Require Import Model.Doc Gen.StyleTables Model.Isd Spec.IsdShape Proofs.C13.Shape Proofs.C13.Styles.
 
-Theorem C13_attrs_clean : forall a st,
-  e_begin (isd_attrs a st) = None /\ e_end (isd_attrs a st) = None /\ e_anims (isd_attrs a st) = [] /\ e_region (isd_attrs a st) = None.
-Proof. exact isd_attrs_clean. Qed.
-Print Assumptions C13_attrs_clean.
+Theorem C13_no_timing : forall d t rs, isd d t = Ok rs -> nth 0 (shape_clauses [] false rs) false = true.
+Proof. exact snapshot_no_timing. Qed.
+Theorem C13_no_animation : forall d t rs, isd d t = Ok rs -> nth 1 (shape_clauses [] false rs) false = true.
+Proof. exact snapshot_no_anims. Qed.
+Theorem C13_no_region_refs : forall d t rs, isd d t = Ok rs -> nth 2 (shape_clauses [] false rs) false = true.
+Proof. exact snapshot_no_region_refs. Qed.
+(* each element carries only applicable style properties and, except br and text, all of them *)
+Theorem C13_styles_exact : forall d t rs, isd d t = Ok rs -> nth 4 (shape_clauses [] false rs) false = true.
+Proof. exact snapshot_styles_exact. Qed.
+(* ... because the style phase gives every one of the 36 properties a value on every non-leaf element *)
+Theorem C13_style_phase_complete : forall d t a par iv st,
+  is_leaf_kind (e_kind a) = false -> style_phase d t a par iv = Ok st -> forall q, In q all_props -> shas st q = true.
+Proof. exact style_phase_complete. Qed.
+Theorem C13_no_display_none : forall d t rs, isd d t = Ok rs -> nth 7 (shape_clauses [] false rs) false = true.
+Proof. exact snapshot_no_display_none. Qed.
+Theorem C13_empty_regions : forall d t rs,
+  Forall (fun r => e_kind (eattrs r) = KRegion) (d_regions d) -> isd d t = Ok rs -> nth 10 (shape_clauses [] false rs) false = true.
+Proof. exact snapshot_empty_regions. Qed.
+
+Print Assumptions C13_no_timing.  Print Assumptions C13_no_animation.  Print Assumptions C13_no_region_refs.
+Print Assumptions C13_styles_exact.  Print Assumptions C13_style_phase_complete.  Print Assumptions C13_no_display_none.
+Print Assumptions C13_empty_regions.
